@@ -16,6 +16,21 @@ FLAVOURS = {
 }
 
 
+class PipelineFailure(Exception):
+    """the code under test cannot be put through the pipeline: the translator rejects / crashes on a VALID module of a check, or the generated C
+    together with the runtime sources does not compile.  On the unchanged tree this never happens; on a changed tree it is a finding about the
+    tree (reported as a violation by the check's main), not a fault of the machinery."""
+    def __init__(self, stage, what):
+        Exception.__init__(self, '%s: %s' % (stage, what))
+        self.stage, self.what = stage, what
+
+
+def report_pipeline_failure(chk, e, how):
+    chk.violation('pipeline|%s' % e.stage, {'kind': 'config', 'stage': e.stage, 'what': e.what[-3000:], 'how_to_replay': how},
+                  'the code under test does not get through the pipeline (%s): %s' % (e.stage, e.what.strip().split('\n')[-1][:300] if e.what.strip() else e.stage))
+    chk.cov['exhaustive'] = False
+
+
 class MachineryError(Exception):
     pass
 
@@ -72,7 +87,7 @@ def build_harness(outdir, flavour, srcs, incs=(), defs=(), name=None, renames=Tr
         list(srcs) + [sched_obj(outdir)] + list(extra_objs) + ['-o', exe, '-lpthread', '-lm']
     r = run(cmd, timeout=600)
     if r.returncode != 0:
-        raise MachineryError('cannot build harness (%s): %s\n%s' % (flavour, ' '.join(cmd), r.stderr.decode()[-3000:]))
+        raise PipelineFailure('harness-build-%s' % flavour, '%s\n%s' % (' '.join(cmd), r.stderr.decode()[-3000:]))
     return exe
 
 
